@@ -432,10 +432,116 @@ def handleRun (f : List String) : String × String × String :=
     | _ => ("bad-head", "-", "-")
   | _ => ("bad-fields", "-", "-")
 
+/-! ### C18.mgr — managers built by arbitrary RegisterModule / AddDependency sequences
+
+`C18.mgr <calls> <targets>  <call results> <DependenciesForModule of every registered module after each call>
+<final queries> <initFn call order> <result> <service keys>`. Module numbers = order of first registration. -/
+
+def strDrop1 (s : String) : String := String.ofList (s.toList.drop 1)
+
+def parseMCalls (s : String) : List MCall :=
+  if s == "-" || s == "" then [] else
+  (s.splitOn ";").map fun c =>
+    if c.startsWith "R" then
+      match (strDrop1 c).splitOn ":" with
+      | [m, ho] => MCall.register (natOf m) (ho.toList.headD '0' == '1') (optsOf ((ho.toList.drop 1).headD '0'))
+      | _ => MCall.addDep 0 []
+    else
+      match (strDrop1 c).splitOn ">" with
+      | [a, ds] => MCall.addDep (natOf a) (listOfNat ds)
+      | _ => MCall.addDep 0 []
+
+def depsSnapshot (g : Graph) : String :=
+  if g.n == 0 then "-" else
+    "/".intercalate ((List.range g.n).map fun m => showNats (((dependenciesFor g (g.n + 2) m).getD []).mergeSort))
+
+def runMCalls (calls : List MCall) : Mgr × List String × List String :=
+  calls.foldl (fun (acc : Mgr × List String × List String) c =>
+    let rm := acc.1.call c
+    let rs := match c with
+      | MCall.register _ _ _ => "r"
+      | MCall.addDep _ _ => addResStr rm.1
+    (rm.2, acc.2.1 ++ [rs], acc.2.2 ++ [depsSnapshot rm.2.g])) (({} : Mgr), [], [])
+
+def bitStr (l : List Bool) : String := String.ofList (l.map fun b => if b then '1' else '0')
+
+def mgrQueries (M : Mgr) : String :=
+  let ms := List.range (M.g.n + 1)
+  bitStr (ms.map M.isModuleRegistered) ++ ";" ++ bitStr (ms.map M.isUserVisibleModule) ++ ";" ++
+  bitStr (ms.map M.isTargetableModule) ++ ";" ++ showNats M.userVisibleModuleNames ++ ";1;" ++
+  (match M.dependenciesForModule (M.g.n + 2) M.g.n with
+    | .nilDeref => "panic" | .val _ => "ret" | .crash => "crash")
+
+def handleMgr (f : List String) : String × String × String :=
+  match f with
+  | [callsS, ts, resS, snapS, qS, obsS, result, keysS] =>
+    let calls := parseMCalls callsS
+    let targets := listOfNat ts
+    let obs := listOfNat obsS
+    let keys := listOfNat keysS
+    let (M, mres, msnap) := runMCalls calls
+    let (mlog, mresult, mkeys) := runInit M.g M.cfg targets obs
+    let model := [",".intercalate mres, "|".intercalate msnap, mgrQueries M, mlog, mresult, mkeys]
+    let diff := if model == [resS, snapS, qS, obsS, result, keysS] then "-" else "model=" ++ " ".intercalate model
+    let obsRes := resS.splitOn ","
+    let snaps := snapS.splitOn "|"
+    -- judge: replay the calls on a plain edge list (a repeated registration replaces the module: its own
+    -- edges go); an accepted dependency must not close a cycle; the final graph is what initialisation obeys
+    let j : List String := Id.run do
+      let mut bad : List String := []
+      let mut gg : Graph := Graph.empty 0
+      let mut hi : List Bool := []
+      let mut i := 0
+      for c in calls do
+        let r := obsRes.getD i "?"
+        i := i + 1
+        match c with
+        | MCall.register m h _ =>
+          if m < gg.n then
+            gg := { gg with deps := setDeps gg.deps m (fun _ => []) }
+            hi := hi.set m h
+          else
+            gg := { n := gg.n + 1, deps := gg.deps ++ [[]] }
+            hi := hi ++ [h]
+        | MCall.addDep name ds =>
+          let known := name < gg.n && ds.all (· < gg.n)
+          let g2 : Graph := { gg with deps := setDeps gg.deps name (· ++ ds) }
+          if r == "ok" then
+            if !known then bad := bad ++ ["unknown-module-accepted"]
+            else
+              if hasCycle g2 && !hasCycle gg then
+                bad := bad ++ [if ds.contains name then "self-dependency-accepted" else "cycle-accepted"]
+              gg := g2
+          else if r == "cycle" then
+            if known && !hasCycle g2 then bad := bad ++ ["acyclic-dependency-rejected"]
+          else if r == "nosuch" then
+            if known then bad := bad ++ ["known-module-rejected"]
+          else bad := bad ++ ["unexpected-add-result"]
+      let cfg : Cfg := { hasInit := hi, initErr := [], hasSvc := hi }
+      bad := bad ++ judgeInit gg cfg targets obs result keys
+      let jdeps := if gg.n == 0 then "-" else
+        "/".intercalate ((List.range gg.n).map fun m => showNats ((reach gg m).mergeSort))
+      if snaps.getLast? != some jdeps then bad := bad ++ ["dependencies-misreported"]
+      match qS.splitOn ";" with
+      | [rb, vb, tb, _, sorted, _] =>
+        if rb != bitStr ((List.range (gg.n + 1)).map fun m => decide (m < gg.n)) then bad := bad ++ ["registration-misreported"]
+        if (List.zip vb.toList tb.toList).any fun p => p.1 == '1' && p.2 == '0' then bad := bad ++ ["visible-but-not-targetable"]
+        if (List.zip vb.toList rb.toList).any fun p => p.1 == '1' && p.2 == '0' then bad := bad ++ ["unregistered-module-visible"]
+        if sorted != "1" then bad := bad ++ ["visible-names-not-sorted"]
+      | _ => bad := bad ++ ["bad-queries"]
+      return bad
+    let judge := if j.isEmpty then "-" else ",".intercalate j
+    let rereg := (mres.zip msnap).length - M.g.n - (calls.filter fun c => match c with | MCall.addDep _ _ => true | _ => false).length
+    let rej := (obsRes.filter fun r => r == "cycle" || r == "nosuch").length
+    let nedges := (M.g.deps.map (·.length)).foldl (· + ·) 0
+    (diff, judge, s!"k=mgr n={M.g.n} calls={min calls.length 14} rereg={min rereg 4} rejected={min rej 4} edges={min nedges 8} res={(result.splitOn ":").headD result}")
+  | _ => ("bad-fields", "-", "-")
+
 def handle (cmd : String) (f : List String) : String × String × String :=
   if cmd == "C18.init" then handleInit f
   else if cmd == "C18.add" then handleAdd f
   else if cmd == "C18.run" then handleRun f
+  else if cmd == "C18.mgr" then handleMgr f
   else ("unknown-cmd", "-", "-")
 
 end OracleC18
